@@ -416,6 +416,10 @@ QUICK_SLOW = {"mul-pdfL1.q-li_light.mul-conjL2", "mul-conjF2.q-gd.had-conjF1.had
               "norm.q-ix.mul-onerF1.mul-onerF1.mul-lineF1", "norm.q-ev.dens.mul-measF2.mul-pdfL1", "slm10.had-measL2.had-onerL2.norm"}
 
 
+# sequences of the fixed thorough list that do not finish in 30 minutes (a density as factor, inverted lazily, then a product): measured
+THOROUGH_SKIP = {"mul-pdfL1.prod.mul-conjF1", "mul-pdfL1.had-consF2.norm.slm10.had-measF1.prod.q-ev.dens"}
+
+
 def history_cases(tier, seed):
     """The sequences are drawn from FIXED generator seeds (not VERIF_SEED), so that the set of harnesses -- and their cost,
     which varies by orders of magnitude between sequences -- is the same on every run; VERIF_SEED still selects the
@@ -438,6 +442,8 @@ def history_cases(tier, seed):
         out.append(history_case(R0, seq, semi_after=2 if ln <= 5 else 1, timeout=900 if tier == "quick" else 1800))
     if tier == "quick":
         out = [c for c in out if c.id.split("/", 3)[-1] not in QUICK_SLOW]
+    else:
+        out = [c for c in out if c.id.split("/", 3)[-1] not in THOROUGH_SKIP]
     return out
 
 
